@@ -1,6 +1,8 @@
 //! Engine `btor2`: the BTOR2 line parser and writer of `flussab-btor2`.
 //!
 //! Case: `btor2 k=<fault offset|-> ls=<0|1> d=<hex> [x=<expected observation>] [t=<line:col:len>]`
+//!   or  `btor2 k=- ls=0 d=- v=<b|d|h>:<hex>`: the `TryFrom<&str>` validator of `BinaryConst` /
+//!   `DecimalConst` / `HexConst` on the given (UTF-8) string; observation `V:1` (Ok) / `V:0` (Err).
 //! Observation (also what the Lean driver prints): one item per `Line` returned by `next_line`
 //!   `c:<comment hex>`                                                  comment line
 //!   `n:<id>:<variant>:<symbol hex|~>:<comment hex|~>`                  node, `<variant>` one of
@@ -417,6 +419,7 @@ pub struct Case {
     pub data: Vec<u8>,
     pub expect: Option<String>,
     pub tok: Option<(usize, usize, usize)>,
+    pub valid: Option<(char, Vec<u8>)>,
 }
 
 impl Case {
@@ -431,16 +434,18 @@ impl Case {
                 let v: Vec<usize> = s.split(':').map(|x| x.parse().unwrap()).collect();
                 (v[0], v[1], v[2])
             }),
+            valid: f.opt("v").map(|s| (s.chars().next().unwrap(), unhex(&s[2..]))),
         }
     }
     pub fn line(&self) -> String {
         format!(
-            "btor2 k={} ls={} d={}{}{}",
+            "btor2 k={} ls={} d={}{}{}{}",
             match self.k { Some(k) => k.to_string(), None => "-".into() },
             self.ls as u8,
             hex(&self.data),
             match &self.expect { Some(x) => format!(" x={}", x), None => String::new() },
             match &self.tok { Some((l, c, n)) => format!(" t={}:{}:{}", l, c, n), None => String::new() },
+            match &self.valid { Some((t, s)) => format!(" v={}:{}", t, hex(s)), None => String::new() },
         )
     }
 }
@@ -448,6 +453,25 @@ impl Case {
 pub fn run_case(line: &str) -> (String, Vec<String>) {
     let c = Case::parse(line);
     let mut fails: Vec<String> = vec![];
+    if let Some((t, bytes)) = &c.valid {
+        let s = std::str::from_utf8(bytes).expect("validator cases are UTF-8");
+        let ok = match t {
+            'b' => BinaryConst::try_from(s).is_ok(),
+            'd' => DecimalConst::try_from(s).is_ok(),
+            _ => HexConst::try_from(s).is_ok(),
+        };
+        // C03: what a validator accepts must be a constant the parser reads back unchanged
+        if ok {
+            let c = match t { 'b' => OConst::Binary(s.into()), 'd' => OConst::Decimal(s.into()), _ => OConst::Hex(s.into()) };
+            let l = OLine::Node { id: 2, variant: OVariant::Const(1, c), symbol: None, comment: None };
+            let text = write_lines(std::slice::from_ref(&l)).unwrap();
+            let back = run_parser(SchedSource::new(text, false, vec![]), 16384).text(false);
+            if back != format!("{}|END", l.obs()) {
+                fails.push(format!("C03:constant accepted by try_from is written and parsed back as {}", back));
+            }
+        }
+        return (format!("V:{}", ok as u8), fails);
+    }
     let delivered: Vec<u8> = match c.k { Some(k) => c.data[..k.min(c.data.len())].to_vec(), None => c.data.clone() };
     let fault = c.k.is_some();
     let mk = |sched: Vec<Ev>| SchedSource::new(delivered.clone(), fault, sched);
